@@ -1,10 +1,10 @@
 package core
 
 import (
-	bolt "go.etcd.io/bbolt"
 	"encoding/json"
 	"errors"
 	"fmt"
+	bolt "go.etcd.io/bbolt"
 	"math/rand"
 	"os"
 	"os/exec"
